@@ -428,6 +428,39 @@ func c02Check(c *Ctx, cnt *counterSet, idx int, m *refmsg.Msg, w []byte) (reject
 		local["compression_effective"]++
 	}
 
+	// Re-encoding is repeatable: a size-limited (truncating) encoding in between - what the UDP
+	// listener does with the very message the cache stores afterwards - leaves no trace in the
+	// message, the unlimited encodings that follow equal the first ones.
+	optLastOrAbsent := true
+	for i, rr := range pm.Additionals {
+		if rr.Hdr().Type == dnsmsg.TypeOPT && i != len(pm.Additionals)-1 {
+			// a size-limited Pack sets the OPT record aside and appends it last, in the message itself
+			// (so that truncation never drops it): by design the order changes for such a message
+			optLastOrAbsent = false
+		}
+	}
+	if idx%3 == 0 && L > 40 && optLastOrAbsent {
+		tb := make([]byte, L)
+		for _, lim := range []int{L / 2, 512} {
+			if lim >= L {
+				continue
+			}
+			pm.Pack(tb, idx%2 == 0, lim)
+		}
+		y0, e0 := pack(pm, false)
+		y1, e1 := pack(pm, true)
+		switch {
+		case e0 != nil || e1 != nil:
+			viol("repack-after-limited-pack:error", fmt.Sprintf("after a size-limited Pack the unlimited Pack failed: %v %v", e0, e1), w0, w1)
+		case !bytes.Equal(y0, w0):
+			viol("repack-after-limited-pack:uncompressed", "after a size-limited (truncating) Pack of the same message, Pack(compress=false,size=0) differs from the encoding made before it", w0, y0)
+		case !bytes.Equal(y1, w1):
+			viol("repack-after-limited-pack:compressed", "after a size-limited (truncating) Pack of the same message, Pack(compress=true,size=0) differs from the encoding made before it", w1, y1)
+		default:
+			local["repacked_identically_after_limited_pack"]++
+		}
+	}
+
 	// the Z bit is reserved, mosproxy's Header has no field for it: not compared (counted)
 	mask := uint16(0xFFFF) &^ refmsg.BitZ
 	if m.Bits&refmsg.BitZ != 0 {
